@@ -82,6 +82,8 @@ JudgeRun(obs) ==
          : j \in { j \in stubs : W[j].parsed /\ W[j].base \notin bases(j) } }
   \cup { [property |-> "C10", clause |-> "NoClobber", sig |-> "overwritten:" \o W[k].kind \o "-over-" \o W[j].kind, expected |-> W[j].digest, observed |-> W[k].digest]
          : <<j, k>> \in { p \in idx \X idx : p[1] < p[2] /\ W[p[1]].path = W[p[2]].path /\ W[p[2]].mode # "a" /\ W[p[1]].digest # W[p[2]].digest } }
+  \cup { [property |-> "C10", clause |-> "NoClobber", sig |-> "first-write-appends:" \o W[j].kind, expected |-> "w", observed |-> W[j].mode \o " " \o W[j].path]
+         : j \in { j \in idx : W[j].isstub /\ W[j].mode = "a" /\ \A k \in 1..(j - 1) : W[k].path # W[j].path } }
   \cup (IF \E j \in idx : W[j].isapi /\ W[j].rel = << obs.srcname \o "__api.json" >> THEN {}
         ELSE { [property |-> "C10", clause |-> "ApiName", sig |-> "api-file-name", expected |-> obs.srcname \o "__api.json", observed |-> ToString({ W[j].rel : j \in { j \in idx : W[j].isapi } })] })
 =============================================================================
